@@ -36,12 +36,23 @@ fn main() {
     let mut p = Part::new(
         "C15",
         "ws",
-        "case = {driver io-uring|poll; plain | TLS(native-tls) | TLS(rustls) under the WebSocket; tiny SO_SNDBUF on the client/server socket;          per direction a proxy schedule of {forward chunk 1..65535 bytes, stall 0..3 ms}; 0-7 steps {sender, Text|Binary 0-100 KiB | Ping | Pong          0-125 bytes}; who closes, with or without close frame}. compio_ws client and server run on one compio runtime over two Unix          socketpairs joined by a forwarding proxy thread. Oracle per step: the message read equals the message sent (in order, exactly          once), a Ping is answered by a Pong with its payload although the receiver never touches its stream again, the close frame is          seen by the peer and acknowledged, afterwards both sides report the normal end; a step that does not finish within the watchdog          is judged by the rescue rule (explicit flush of both streams delivers it => violation, else inconclusive).          Non-trivial = at least one message and the proxy really fragmented or stalled the byte stream.",
+        "case = {driver io-uring|poll; plain | TLS(native-tls) | TLS(rustls) under the WebSocket; tiny SO_SNDBUF on the client/server socket; \
+         per direction a proxy schedule of {forward chunk 1..65535 bytes, stall 0..3 ms} and a proxy buffer cap (4-128 KiB = back-pressure, \
+         or 4 MiB); 0-7 steps {sender, Text|Binary 0-100 KiB | Ping | Pong 0-125 bytes | Burst = the peer first sends 1-8 (1-40 over an \
+         uncapped proxy) small messages that stay unread, the sender feed()s 48-384 KiB without flushing and then reads the queued messages \
+         while its own flush is still pending, the peer reads the large message concurrently}; who closes, with or without close frame}. \
+         compio_ws client and server run on one compio runtime over two Unix socketpairs joined by a forwarding proxy thread; send and \
+         read of a step run concurrently. Oracle per step: the message read equals the message sent (in order, exactly once), a Ping is \
+         answered by a Pong with its payload although the receiver never touches its stream again, the close frame is seen by the peer \
+         and acknowledged, afterwards both sides report the normal end; a step that does not finish within the watchdog is judged by the \
+         rescue rule (explicit flush of both streams delivers it => violation, else inconclusive). \
+         Non-trivial = at least one message and the proxy really fragmented or stalled the byte stream.",
     );
     p.quick_cases = 400;
     p.thorough_cases = 12_000;
     p.threads = 4;
     p.max_shrink_iters = 6;
+    p.regressions = ws::regressions();
     let vd = verif_dir.clone();
     s.run_part(p, ws::strategy(), move |c| ws::run(c, &vd));
     s.finish();
